@@ -14,7 +14,6 @@ import (
 	"fmt"
 	"hash/fnv"
 	"runtime"
-	"sort"
 	"strings"
 )
 
@@ -105,13 +104,13 @@ type Exec struct {
 	aborting bool
 	Fail     *Failure
 	finished chan struct{}
-	objHash  map[uint64]uint64
+	objHash u64map
 	Steps    int
 	envHash  uint64
 	Out      map[string]any
 	closer   *thread
 	// Conflicts counts, per object, how many distinct threads touched it inside the window.
-	touched map[uint64]map[int]struct{}
+	touched u64map // object -> bit set of the threads (id mod 64) that touched it inside the window
 	cleanup []func()
 	inEnv   bool
 }
@@ -165,7 +164,7 @@ func Run(prefix []int, cfg Config, body func()) *Exec {
 	for _, f := range resetHooks {
 		f()
 	}
-	s := &Exec{Cfg: cfg, prefix: prefix, finished: make(chan struct{}), objHash: map[uint64]uint64{}, Out: map[string]any{}, touched: map[uint64]map[int]struct{}{}}
+	s := &Exec{Cfg: cfg, prefix: prefix, finished: make(chan struct{}), Out: map[string]any{}}
 	S = s
 	main := &thread{id: 0, name: "main", resume: make(chan struct{}, 1), hash: hs("main"), ident: hs("main"), exited: make(chan struct{})}
 	s.threads = append(s.threads, main)
@@ -184,6 +183,7 @@ func (s *Exec) threadBody(t *thread, f func(), isMain bool) {
 		r := recover()
 		if s.aborting {
 			// unwinding: either we are being unwound by the closer, or we are the closer
+			RaceReleaseMerge(abortCell)
 			if s.closer == t {
 				close(s.finished)
 			} else {
@@ -222,25 +222,24 @@ func (s *Exec) threadBody(t *thread, f func(), isMain bool) {
 // resumed is called by a thread that has just been handed the baton.
 func (s *Exec) resumed(t *thread) {
 	if s.aborting {
+		// The execution is over and this thread is only unwound. Its deferred functions run with every
+		// shim turned into a no-op, so they would look like unsynchronised accesses to the race
+		// detector: order them after everything that happened in the execution.
+		RaceAcquire(abortCell)
 		runtime.Goexit()
 	}
 	s.cur = t
 	op := t.pending
 	t.pending = nil
-	h := mix(t.hash, s.objHash[op.Obj], hs(op.Kind)^op.Arg)
+	h := mix(t.hash, s.objHash.get(op.Obj), hs(op.Kind)^op.Arg)
 	for _, r := range op.Reads {
-		h = mix(h, s.objHash[r], 0x4ead)
+		h = mix(h, s.objHash.get(r), 0x4ead)
 	}
 	t.hash = h
-	s.objHash[op.Obj] = h
+	s.objHash.set(op.Obj, h)
 	t.nops++
 	if s.window && op.Obj != 0 {
-		m := s.touched[op.Obj]
-		if m == nil {
-			m = map[int]struct{}{}
-			s.touched[op.Obj] = m
-		}
-		m[t.id] = struct{}{}
+		s.touched.set(op.Obj, s.touched.get(op.Obj)|1<<(uint(t.id)%64))
 	}
 	if op.AddrKeyed {
 		s.logf(t, op.Kind, 0)
@@ -260,9 +259,9 @@ func Fold(v uint64) {
 // Touch folds the running thread's history into obj (a write the operation performed).
 func Touch(obj uint64) {
 	if S != nil && S.cur != nil && !S.aborting {
-		h := mix(S.cur.hash, S.objHash[obj], 0x70c4)
+		h := mix(S.cur.hash, S.objHash.get(obj), 0x70c4)
 		S.cur.hash = h
-		S.objHash[obj] = h
+		S.objHash.set(obj, h)
 	}
 }
 
@@ -286,6 +285,8 @@ func FailNow(kind, msg string) {
 // endExecution unwinds every other live thread, one at a time, from the
 // goroutine that holds the baton.
 func (s *Exec) endExecution(t *thread) {
+	RaceReleaseMerge(abortCell)
+	RaceAcquire(abortCell)
 	s.aborting = true
 	s.closer = t
 	t.done = true
@@ -302,11 +303,11 @@ func (s *Exec) endExecution(t *thread) {
 // two threads inside the exploration window (vacuity guard).
 func (s *Exec) ConflictObjects() int {
 	n := 0
-	for _, m := range s.touched {
-		if len(m) >= 2 {
+	s.touched.each(func(_, bits uint64) {
+		if bits&(bits-1) != 0 {
 			n++
 		}
-	}
+	})
 	return n
 }
 
@@ -363,6 +364,7 @@ func Yield(op Op) {
 		t.loc = caller()
 	}
 	t.pending = &op
+	RaceReleaseMerge(abortCell) // see resumed(): unwinding threads synchronise with everything that ran
 	next := s.pick(t)
 	if next == nil {
 		// nothing can run: deadlock, failure or horizon; end the execution from here
@@ -604,12 +606,17 @@ func (s *Exec) liveTimers() []*timer {
 		}
 	}
 	s.timers = live
-	sort.SliceStable(s.timers, func(i, j int) bool {
-		if s.timers[i].at != s.timers[j].at {
-			return s.timers[i].at < s.timers[j].at
+	// insertion sort by (deadline, creation order); no library call: the standard library is
+	// race-instrumented and the scheduler's state is shared under the baton
+	for i := 1; i < len(live); i++ {
+		t := live[i]
+		j := i
+		for j > 0 && (live[j-1].at > t.at || (live[j-1].at == t.at && live[j-1].seq > t.seq)) {
+			live[j] = live[j-1]
+			j--
 		}
-		return s.timers[i].seq < s.timers[j].seq
-	})
+		live[j] = t
+	}
 	return s.timers
 }
 
@@ -745,3 +752,6 @@ func LiveThreads(tag string) []string {
 	}
 	return out
 }
+
+// abortCell orders the unwinding of an ended execution after the execution itself (race builds only).
+const abortCell = 0xab027ab027
